@@ -1,0 +1,21 @@
+//go:build !verif
+// +build !verif
+
+package jsonata
+
+import "unsafe"
+
+// Point kinds (unused without the verif build tag).
+const (
+	vEval uint8 = iota
+	vCall
+	vRead
+	vWrite
+	vLock
+	vUnlock
+	vRLock
+	vRUnlock
+)
+
+// vpoint is a no-op without the verif build tag.
+func vpoint(kind uint8, loc unsafe.Pointer) {}
